@@ -10,6 +10,8 @@ from pathlib import Path
 from xml.sax.saxutils import escape
 
 from bounded.harness import emit, payload, quiet_stdout
+from bounded.harness import install_watchdog
+install_watchdog()
 
 P = payload()
 tier = P.get("tier", "quick")
@@ -185,6 +187,19 @@ if len(rows) != 2:
          "merged:Main-prefix")
 ctx.db_conn.close()
 shutil.rmtree(TMP, ignore_errors=True)
+# F: every shipped namespaces.json gives each namespace id and each name once (ingestion stores a page under the local
+# name of its namespace id: a duplicated id would file pages under another namespace's name)
+import json as _json
+import wikitextprocessor as _wp
+for f_ in sorted((Path(_wp.__file__).parent / "data").glob("*/namespaces.json")):
+    d_ = _json.loads(f_.read_text(encoding="utf-8"))
+    ids_ = [v["id"] for v in d_.values()]
+    nm_ = [v["name"] for v in d_.values() if v["name"]]
+    evaluations += 1
+    if len(ids_) != len(set(ids_)) or len(nm_) != len(set(nm_)):
+        dup = sorted({i for i in ids_ if ids_.count(i) > 1}) + sorted({n for n in nm_ if nm_.count(n) > 1})
+        fail("data:namespaces.json#namespace-ids-and-names-are-unique", f"{f_.parent.name}/namespaces.json: duplicates {dup}",
+             {"file": f"{f_.parent.name}/namespaces.json", "duplicates": dup}, "duplicate-namespace")
 emit({"evaluations": evaluations, "distinct_nontrivial": len(distinct),
       "rule": "distinct generated dumps (page list + selected namespace set)",
       "failures": list(failures.values()), "samples": samples,
